@@ -8,6 +8,9 @@ from symx import run as R                 # noqa: E402
 
 H = {'s2b': R.Harness('s2b', strs.scen_s2b, strs.load_sym, strs.load_real)}
 H['s2b'].required_goals = ('accepted', 'rejected')
+H['s2b-twice'] = R.Harness('s2b-twice', strs.scen_s2b_twice, strs.load_sym,
+                           strs.load_real)
+H['s2b-twice'].required_goals = ('done',)
 H['extract'] = R.Harness('extract', strs.scen_extract, strs.load_sym_qemu,
                          strs.load_real_qemu)
 H['extract'].required_goals = ('explicit-bytes', 'no-unit', 'unit',
@@ -23,6 +26,7 @@ def build_jobs(tier, seed):
                                          nmag=3 if tier == 'quick' else 4),
                           split_depth=8))
     jobs.append(J(H['extract'], {}, split_depth=6))
+    jobs.append(J(H['s2b-twice'], {}, split_depth=4))
     return jobs
 
 
